@@ -127,6 +127,7 @@ class Graph(object):
         # the covering minimiser); 0 = each net has its own upper 20 bits
         self.dense_bits = 0 if t is None else [0, 0, 3, 4, 6][t.draw(5)]
         self.free_regions = [(0, 0)]
+        self.high_keys = t is not None and t.draw(4) == 0
         self.vertices_resources = collections.OrderedDict()
         self.nets = []
         self.net_keys = collections.OrderedDict()
@@ -193,6 +194,13 @@ def add_net(t, g, par, max_fanout=12):
     net = HNet(src, sinks, weight, ident=ident)
     g.nets.append(net)
     km = dense_key(t, g) if g.dense_bits else None
+    if km is None and g.high_keys and ident < 255:
+        # orthogonal keys told apart by their *top* byte (so that keys lie on
+        # both sides of 2**31 and differ in bit 31 among others)
+        mask = [0xffffffff, 0xff000000, 0xffffff00, 0xfffffff0][t.draw(4)]
+        key = ((((ident + 1) * 37) & 0xff) << 24) | \
+            (t.draw(1 << 24) & mask & 0xffffff)
+        km = (key & mask, mask)
     if km is None:
         # orthogonal keys: distinct upper 20 bits, mixed generality
         mask = [0xffffffff, 0xfffff000, 0xffffff00, 0xfffffff0][t.draw(4)]
